@@ -85,6 +85,79 @@ class Ref(object):
         return out, dec, enc
 
 
+def decode_determinism(chk):
+    ev = chk.ev
+    # decoding data is a function of (class, arguments, bytes): the same call gives the same outcome - the same
+    # values or the same refusal - first, again, and after every other decoder has run (READ CD with every
+    # combination of expected sector type and main channel selection, accepted or not; every response decoder)
+    from ..core import datafmt
+    drng0 = random.Random(chk.seed + 3)
+    RC = cmds.klass("ReadCd")
+    sector = bytearray(drng0.getrandbits(8) for _ in range(2646))
+    calls = []
+    for est in range(6):
+        for mcsb in range(32):
+            calls.append(("ReadCd est=%d mcsb=%02x" % (est, mcsb), "ReadCd",
+                          lambda est=est, mcsb=mcsb: RC.unmarshall_datain(bytearray(sector), lba=3, tl=1, est=est, mcsb=mcsb, c2ei=0, scsb=0)))
+    for fmt in sorted(datafmt.GEN):
+        dec_ = datafmt.decoder(fmt)
+        for _ in range(2):
+            b0 = bytes(datafmt.GEN[fmt](drng0, 1) if fmt.startswith("ModeSense") else datafmt.GEN[fmt](drng0))
+            calls.append((fmt, fmt, lambda dec_=dec_, b0=b0: dec_(bytearray(b0))))
+            if len(b0) > 6:
+                calls.append((fmt + " (cut)", fmt, lambda dec_=dec_, b0=b0: dec_(bytearray(b0[:len(b0) // 2]))))
+
+    def outcome(fn):
+        try:
+            return "value " + repr(cc_norm(fn()))[:4000]
+        except Exception as ex:
+            return "raised " + type(ex).__name__
+
+    def cc_norm(o):
+        if isinstance(o, dict):
+            return sorted((str(k), cc_norm(v)) for k, v in o.items())
+        if isinstance(o, (list, tuple)):
+            return [cc_norm(v) for v in o]
+        if isinstance(o, (bytes, bytearray)):
+            return bytes(o)
+        return o
+    # the reference outcome of every call is taken in a process of its own, forked now, in which that call is the
+    # first thing the decoders ever do
+    import hashlib
+    import os as _os
+
+    def pristine(fn):
+        r_, w_ = _os.pipe()
+        pid = _os.fork()
+        if pid == 0:
+            try:
+                _os.close(r_)
+                _os.write(w_, hashlib.sha1(outcome(fn).encode("utf-8", "replace")).hexdigest().encode())
+            finally:
+                _os._exit(0)
+        _os.close(w_)
+        got = b""
+        while True:
+            chunk = _os.read(r_, 64)
+            if not chunk:
+                break
+            got += chunk
+        _os.close(r_)
+        _os.waitpid(pid, 0)
+        return got.decode()
+    first = [pristine(fn) for _, _, fn in calls]
+    for order in (list(range(len(calls))), list(reversed(range(len(calls))))):
+        for k in order:
+            again = outcome(calls[k][2])
+            ev.case(("decode-again", calls[k][0]))
+            if hashlib.sha1(again.encode("utf-8", "replace")).hexdigest() != first[k]:
+                chk.violation({"clause": "Deterministic", "cls": calls[k][1], "other": "", "field": "",
+                               "detail": {"call": calls[k][0], "later": again[:300]},
+                               "what": "the same decode call gives another outcome than in a process where it comes first"},
+                              dedup=("Deterministic", "decode", calls[k][1]))
+
+
+
 def run(chk, replay=None):
     ev = chk.ev
     ev.assumptions += [
@@ -94,6 +167,7 @@ def run(chk, replay=None):
     ]
     if replay is not None:
         chk.only(replay, keys=("clause", "cls", "other"))
+    decode_determinism(chk)       # first of all: the first pass must be the first use of the decoders in this process
     cases = cc.spec_cases(chk, "c09mc")
     refargs = reference_args(cases)
     sets = {c["cls"]: sorted(c["sets"]) for c in cases}
@@ -238,6 +312,39 @@ def run(chk, replay=None):
         ev.case(("triple", a, b, c))
     ev.replayed(nonlocal_n[0])
     ev.sample({"sequence": seqs2[7], "roles": {"A": fam[2], "B": fam[3]}})
+
+    # ---- a REFUSED construction is "creating another command" too: whatever it set up before it was refused must be
+    # gone - every class encodes, decodes and builds afterwards as it does in isolation
+    from .c17 import request as refused_request
+    sbc_ = mod("pyscsi.pyscsi.scsi_enum_command").sbc
+    K = cmds.klass
+    refusals = [("ATAPassThrough16 EXTEND=0 without block size", lambda: K("ATAPassThrough16")(sbc_.ATA_PASS_THROUGH_16, 4, 2, 1, 1, 1, 0, 0x1234, 0x0102, 5, 0x20, blocksize=0, extend=0)),
+                ("ATAPassThrough16 EXTEND=1 without block size", lambda: K("ATAPassThrough16")(sbc_.ATA_PASS_THROUGH_16, 4, 2, 1, 1, 1, 0, 0x1234, 0x0102, 5, 0x24, blocksize=0, extend=1)),
+                ("ATAPassThrough12 without block size", lambda: K("ATAPassThrough12")(sbc_.ATA_PASS_THROUGH_12, 4, 2, 1, 1, 1, 0, 0x12, 2, 5, 0x20, blocksize=0)),
+                ("Read10 without block size", lambda: K("Read10")(sbc_.READ_10, 0, 7, 2)),
+                ("Read16 without block size", lambda: K("Read16")(sbc_.READ_16, 0, 2 ** 40, 2)),
+                ("Write12 without block size", lambda: K("Write12")(sbc_.WRITE_12, 0, 7, 1, bytearray(8))),
+                ("WriteSame16 without block size", lambda: K("WriteSame16")(sbc_.WRITE_SAME_16, 0, 7, 1, bytearray(8))),
+                ("TestUnitReady with a vendor operation code", lambda: K("TestUnitReady")(mod("pyscsi.pyscsi.scsi_opcode").OpCode("X", 0xC5, {})))]
+    for k_, v_ in (("xcopy_cscd_key", 1), ("xcopy_seg_key", 1), ("xcopy_cscd_type", 0xD0), ("xcopy_seg_type", 0x30),
+                   ("tid_isid_without_format", 0), ("tid_format_without_isid", 0)):
+        refusals.append(("%s %s" % (k_, v_), lambda k_=k_, v_=v_: (_ for _ in ()).throw(ValueError()) if refused_request(k_, v_)["exc"] else None))
+    for label, attempt in refusals:
+        try:
+            attempt()
+            continue              # not refused here: C17's concern, nothing to learn for isolation
+        except Exception:
+            pass
+        ev.case(("refused", label))
+        for n in names:
+            r = refs[n]
+            check_probe(r, "refused: " + label)
+            try:
+                check_obj(r, r.build(), "refused: " + label)
+            except Exception as ex:
+                chk.violation({"clause": "Isolation", "cls": n, "other": "refused: " + label, "field": "",
+                               "detail": {"raised": repr(ex)}, "what": "construction after a refused one"},
+                              dedup=("Isolation", n, "refused"))
 
     # ---- the SAME bytes decoded by two classes: what B reads in them is B's layout applied to the bytes, whoever
     # decoded those bytes before (the expected dictionary comes from TLC: T10Cdb!DictDecode(B, bytes))
